@@ -164,9 +164,18 @@ class ExcelCompiler:
 
             if self.cycles:
                 def _eval(cell, cse_array_address=None):
+                    if isinstance(cell, _CellRange):
+                        # array formula ranges are not iterated on
+                        return eval_ctx(
+                            cell.formula, cse_array_address=cse_array_address)
                     cell.start_calcs()
-                    return eval_ctx(
-                        cell.formula, cse_array_address=cse_array_address)
+                    try:
+                        return eval_ctx(
+                            cell.formula, cse_array_address=cse_array_address)
+                    except Exception:
+                        # the calc failed, so the cell is no longer in progress
+                        cell.wip = False
+                        raise
 
             else:
                 def _eval(cell, cse_array_address=None):
